@@ -159,6 +159,25 @@ func condKnown(cond ssa.Value, c pctx) (bool, bool) {
 			}
 			return false, false
 		}
+		// i == -1 / i != -1 where i is, on this path, a constant or a value that cannot be negative (a range index, a length)
+		for _, pr := range [][2]ssa.Value{{x.X, x.Y}, {x.Y, x.X}} {
+			k, isK := constInt(pr[1])
+			if !isK {
+				continue
+			}
+			if o, ok := phiOperandAt(pr[0], c); ok {
+				if ko, isKo := constInt(o); isKo {
+					eq := ko == k
+					if x.Op == token.NEQ {
+						eq = !eq
+					}
+					return eq, true
+				}
+				if k < 0 && nonNegativeInt(o, 0) {
+					return x.Op == token.NEQ, true
+				}
+			}
+		}
 		// b == true / b != false ...
 		for _, pr := range [][2]ssa.Value{{x.X, x.Y}, {x.Y, x.X}} {
 			if k, isC := pr[1].(*ssa.Const); isC && k.Value != nil && k.Value.Kind().String() == "Bool" {
@@ -311,4 +330,45 @@ func threadPhis(fn *ssa.Function) int {
 		}
 	}
 	return n
+}
+
+// nonNegativeInt: v is a range index (counter starting at -1, incremented before use), a length, or a sum of such.
+func nonNegativeInt(v ssa.Value, d int) bool {
+	if d > 4 {
+		return false
+	}
+	switch x := stripConv(v).(type) {
+	case *ssa.Const:
+		k, ok := constInt(x)
+		return ok && k >= 0
+	case *ssa.Call:
+		if b, ok := x.Call.Value.(*ssa.Builtin); ok && (b.Name() == "len" || b.Name() == "cap") {
+			return true
+		}
+	case *ssa.BinOp:
+		if x.Op == token.ADD {
+			// rangeindex: phi(-1, self) + 1
+			if ph, ok := x.X.(*ssa.Phi); ok {
+				if k, isK := constInt(x.Y); isK && k == 1 {
+					okAll := len(ph.Edges) > 0
+					for _, e := range ph.Edges {
+						if ke, isKe := constInt(e); isKe && ke >= -1 {
+							continue
+						}
+						if e == ssa.Value(x) {
+							continue
+						}
+						okAll = false
+					}
+					if okAll {
+						return true
+					}
+				}
+			}
+			return nonNegativeInt(x.X, d+1) && nonNegativeInt(x.Y, d+1)
+		}
+	case *ssa.Extract:
+		// index of a range over a map/string is not handled
+	}
+	return false
 }
